@@ -390,7 +390,7 @@ fn network_rule(shape: NetShape) {
 // above (real code, each shape); at model level they are replaced by the non-recursive stubs
 // below, which are exact for the leaf variants and refuse (assume false) Combined.
 
-fn map_value_flat(this: &VehicleCostRate, state: StateVar) -> Cost {
+pub fn map_value_flat(this: &VehicleCostRate, state: StateVar) -> Cost {
     match this {
         VehicleCostRate::Zero => Cost::ZERO,
         VehicleCostRate::Raw => Cost::new(state.0),
@@ -403,7 +403,7 @@ fn map_value_flat(this: &VehicleCostRate, state: StateVar) -> Cost {
     }
 }
 
-fn net_traversal_flat(
+pub fn net_traversal_flat(
     this: &NetworkCostRate,
     _p: StateVar,
     _n: StateVar,
@@ -420,7 +420,7 @@ fn net_traversal_flat(
     }
 }
 
-fn net_access_flat(
+pub fn net_access_flat(
     this: &NetworkCostRate,
     _p: StateVar,
     _n: StateVar,
